@@ -18,6 +18,7 @@ mod c27;
 mod c26;
 mod c28;
 mod c29f;
+mod c21;
 mod gens;
 mod lang;
 mod vrlrun;
@@ -56,6 +57,7 @@ const EXECS: &[Exec] = &[
     c26::exec,
     c28::exec,
     c29f::exec,
+    c21::exec,
 ];
 
 /// Run one case (`op` + inputs) on the implementation: the first module that recognises the op answers.
@@ -93,6 +95,7 @@ fn generate(prop: &str, sink: &mut sink::Sink, rng: &mut rng::Rng, n: u64) -> bo
             c29::generate(sink, rng, n);
             c29f::generate(sink, rng, n);
         }
+        "C21" => c21::generate(sink, rng, n),
         _ => return false,
     }
     true
